@@ -11,6 +11,40 @@ import warnings
 from spec import pyspec
 
 
+class _OldCollector(ast.NodeTransformer):
+    """old(E) -> a name bound to E's value in the pre-state (snapshot for plain containers, reference for objects)."""
+    def __init__(self):
+        self.items = []
+
+    def visit_Call(self, node):
+        if isinstance(node.func, ast.Name) and node.func.id == "old" and len(node.args) == 1:
+            name = f"_old_{len(self.items)}"
+            self.items.append((name, ast.Expression(body=_IsToSame().visit(node.args[0]))))
+            return ast.Name(id=name, ctx=ast.Load())
+        self.generic_visit(node)
+        return node
+
+
+def split_old(src):
+    """Returns (code of the clause with old(..) replaced by names, [(name, code of the pre-state expression)])."""
+    key = ("old", src)
+    if key not in _cache:
+        tree = ast.parse(src, mode="eval")
+        coll = _OldCollector()
+        tree = coll.visit(tree)
+        tree = ast.fix_missing_locations(_IsToSame().visit(tree))
+        pre = [(n, compile(ast.fix_missing_locations(e), "<old>", "eval")) for n, e in coll.items]
+        _cache[key] = (compile(tree, f"<contract: {src[:40]}>", "eval"), pre)
+    return _cache[key]
+
+
+def snapshot(v):
+    import copy
+    if isinstance(v, (list, dict)) and pyspec.is_json(v) is True and type(v) in (list, dict):
+        return copy.deepcopy(v)
+    return v
+
+
 class _IsToSame(ast.NodeTransformer):
     def visit_Compare(self, node):
         self.generic_visit(node)
@@ -155,11 +189,24 @@ def check_call(contract, fn, args, kwargs=None, ns=None, exc_classes=None):
             pre_conds.append((names, cond, bool(ev(cond, env)), True))
         for names, cond in contract.may_raise:
             pre_conds.append((names, cond, bool(ev(cond, env)), False))
+    post_code, old_exprs = split_old(contract.returns)
+    olds = {}
+    try:
+        with warnings.catch_warnings():
+            warnings.simplefilter("ignore")
+            ev("True", env)     # installs the macros into env
+            for name, code in old_exprs:
+                olds[name] = snapshot(eval(code, env))
+    except Exception:
+        return "skip"
     before = {k: full_state(v) for k, v in bound.arguments.items()}
     with warnings.catch_warnings(record=True) as wlist:
         warnings.simplefilter("always")
         try:
-            out = Outcome("return", fn(*args, **kwargs))
+            rv = fn(*args, **kwargs)
+            if inspect.isgenerator(rv):
+                rv = list(rv)        # generators have eager list semantics in the contracts
+            out = Outcome("return", rv)
         except BaseException as e:  # noqa
             if isinstance(e, (KeyboardInterrupt, SystemExit)):
                 raise
@@ -193,9 +240,10 @@ def check_call(contract, fn, args, kwargs=None, ns=None, exc_classes=None):
         with warnings.catch_warnings():
             warnings.simplefilter("ignore")
             try:
-                good = ev(contract.returns, env2)
+                env2.update(olds)
+                good = eval(post_code, env2)
             except Exception as e:
-                return viol("returns", f"ensures clause not evaluable: {type(e).__name__}: {e}")
+                return "skip"       # the monitor cannot evaluate the clause on this input: no verdict
         if not good:
             return viol("returns", f"ensures `{contract.returns}` is false")
         if "warns" in contract.ghost:
